@@ -42,8 +42,8 @@ impl Buffer {
         if self.have < 0 {
             self.state.refill(drounds, &mut self.out);
             self.have += BLOCK as i8;
-            // checked in seek()
-            self.len -= 1;
+            // checked in seek(); for a fresh 64-bit-counter stream len is 0 = 2^64 blocks (mod 2^64)
+            self.len = self.len.wrapping_sub(1);
         }
         let mut have = self.have as usize;
         let have_ready = cmp::min(have, data.len());
